@@ -69,17 +69,12 @@ class ActionContext(abc.ABC):
 
     def __enter__(self):
         """Enter and open the context."""
-        # other threads can be at the same tracepoint, the limits only hold if check, process and record are one step
-        self.location_action.lock.acquire()
         return self
 
     def __exit__(self, exception_type, exception_value, exception_traceback):
         """Exit and close the context."""
-        try:
-            if self.has_triggered():
-                self.location_action.record_triggered(self.trigger_context.ts)
-        finally:
-            self.location_action.lock.release()
+        if self.has_triggered():
+            self.location_action.record_triggered(self.trigger_context.ts)
 
     def eval_watch(self, watch: str, source: str) -> Tuple[WatchResult, Dict[str, Variable], str]:
         """
